@@ -204,6 +204,11 @@ func (x *Exec) headPos(b *ssa.BasicBlock) int {
 	best := 0
 	for blk := range x.loops[b.Index].body {
 		for _, in := range blk.Instrs {
+			// phis carry the position of the variable's declaration (for named
+			// results: the signature), which says nothing about where the loop is
+			if _, isPhi := in.(*ssa.Phi); isPhi {
+				continue
+			}
 			if p := in.Pos(); p.IsValid() {
 				if best == 0 || int(p) < best {
 					best = int(p)
@@ -972,6 +977,30 @@ func (x *Exec) doReturn(s *State, r *ssa.Return) {
 	bindResults(env, sig, results)
 	if x.con != nil {
 		for i, c := range x.con.Ensures {
+			if c.Local {
+				// a clause over the function's locals applies at the returns where
+				// those locals exist (an early return before their definition says
+				// nothing about them); the registration check notices a clause
+				// that is never generated
+				t, ok := func() (t string, ok bool) {
+					defer func() {
+						if r := recover(); r != nil {
+							if e, isSpec := r.(specErr); isSpec && strings.HasPrefix(string(e), "unknown identifier") {
+								ok = false
+								return
+							}
+							panic(r)
+						}
+					}()
+					return env.checkTerm(c), true
+				}()
+				if !ok {
+					continue
+				}
+				o := x.ob("post", clauseName(c, i), c.Src, r)
+				s.check(o, t)
+				continue
+			}
 			t := env.checkTerm(c)
 			o := x.ob("post", clauseName(c, i), c.Src, r)
 			s.check(o, t)
